@@ -226,10 +226,14 @@ def delay_at(mn, mx, i):
 
 def oracle(case, tr):
     """The clauses of C09 judged on the implementation trace: list of (signature, text).
-    fail = on_connect_fail or on_disconnect(rc != 0); accepted = on_connect(rc == 0)."""
-    mn, mx = case["min"], case["max"]
+    fail = on_connect_fail, on_disconnect(rc != 0), or an immediate (downgrade) attempt whose TCP connect the
+    script refuses (the client reports that one through no callback); accepted = on_connect(rc == 0).
+    Failures of the first-connection loop (every attempt so far refused, retry_first_connection on) are
+    retried by that loop whatever reconnect_on_failure says."""
+    mn, mx, script = case["min"], case["max"], case["script"]
     bad = []
     i, pend, stopped, acted, nattempt = 0, None, False, False, -1
+    first_phase = bool(case["retry_first"])
     for e in tr["order"]:
         kind = e[0]
         if kind == "attempt":
@@ -238,26 +242,27 @@ def oracle(case, tr):
             if stopped:
                 bad.append(("c09-attempt-after-final",
                             f"attempt #{nattempt} at t={t} after disconnect()/stop or after a failure with reconnect_on_failure off"))
+            refused = nattempt < len(script) and script[nattempt][0] == 0
+            if not refused:
+                first_phase = False
             if imm:
+                if refused:
+                    pend = t
+                    if not case["rof"]:
+                        stopped = True
                 continue
             if pend is not None:
                 gap, want = t - pend, delay_at(mn, mx, i)
                 if gap < mn:
                     bad.append(("c09-retry-sooner-than-min", f"attempt #{nattempt} only {gap} after the failure (min_delay {mn})"))
                 if gap != want:
-                    if (case["retry_first"] and case["script"] and case["script"][0][0] == 0 and nattempt == 1
-                            and gap == delay_at(mn, mx, 0) + delay_at(mn, mx, 1)):
-                        bad.append(("c09-first-retry-double-wait",
-                                    f"retry_first_connection: first retry {gap} after the refused first attempt, expected {want} (two back-off steps are spent)"))
-                        i += 1
-                    else:
-                        bad.append(("c09-delay-sequence",
-                                    f"attempt #{nattempt}: {gap} after the failure, expected {want} (retry {i} since the last accepted CONNACK)"))
+                    bad.append(("c09-delay-sequence",
+                                f"attempt #{nattempt}: {gap} after the failure, expected {want} (retry {i} since the last accepted CONNACK)"))
                 i += 1
                 pend = None
         elif kind == "fail":
             pend = e[1]
-            if not case["rof"]:
+            if not case["rof"] and not first_phase:
                 stopped = True
         elif kind == "accepted":
             i = 0
@@ -265,12 +270,9 @@ def oracle(case, tr):
             stopped = acted = True
     ret = tr["ret"]
     if ret[0] == 1:
-        documented = (not case["retry_first"]) and case["script"] and case["script"][0][0] == 0 and nattempt == 0
+        documented = (not case["retry_first"]) and script and script[0][0] == 0 and nattempt == 0
         if not documented:
-            last_imm = bool(tr["attempts"] and tr["attempts"][-1][1])
-            bad.append(("c09-downgrade-oserror" if last_imm else "c09-oserror-escaped",
-                        "OSError escaped loop_forever, nothing retries any more" +
-                        (" (TCP connect refused during the protocol-downgrade reconnect() inside _handle_connack)" if last_imm else "")))
+            bad.append(("c09-oserror-escaped", "OSError escaped loop_forever, nothing retries any more"))
     elif ret[0] == 0 and not (acted or not case["rof"]):
         bad.append(("c09-gave-up", f"loop_forever returned {ret[1]} although neither disconnect()/stop happened nor reconnect_on_failure is off"))
     return bad
